@@ -30,6 +30,7 @@ func init() {
 		Assumptions: []string{"the race detector only reports accesses that execute in the run and keeps a bounded history per memory word", "harness state is per-goroutine (forked contexts) or read-only after the go statements; results are merged after WaitGroup.Wait"},
 		MinObs:      map[string]int64{"goroutines_run": 400, "mutations": 20000, "shared_nodes_read_by_2plus": 500, "runs_frozen": 10, "runs_live": 10, "runs_clones": 10},
 		Run:         runC11,
+		EvalObs:     []string{"goroutines_run"},
 	})
 }
 
